@@ -165,6 +165,75 @@ int main(int argc, char **argv) {
             };
             plan.stages.push_back(s2);
         }
+        // stage 3: micro-grammars - small alphabets of larger pieces around one construct each, walked deeper than the
+        // general token alphabet can be: the places where the parser keeps offsets of pieces that may not nest
+        {
+            struct Micro {
+                const char              *name;
+                std::vector<std::string> toks;
+                int                      n;      // depth at --micro 0 (fast build)
+                int                      n_asan; // depth at --micro 0 under ASan
+                bool                     filler; // add the 65540-unit filler as a token
+            };
+            static const std::vector<Micro> micros = {
+                {"inline-if", {"{if case=\"1\"", "{if case=\"{var:z}\"", " true=\"", " false=\"", " true=\"a\"", "\"", "'", "{var:a}", " {var:a}", "{var:a", "{math:1+", "}", "a"}, 6, 5, false},
+                {"if-case", {"<if case=", "{if case=", "<else if case=", "=", "\"", "1", "=1", "\"1", "!=", "<=", ">=", "==", "&&", "!", "<", ">", "|", "x</if>", " true=+x+}", "("}, 5, 5, false},
+                {"math-ends", {"{math:", "1", "a", "{var:a}", "!", "=", "<", ">", "&", "|", "(", ")", "}", "+", "-", "^", " "}, 5, 4, false},
+                {"wide-inline-if", {"{if case=\"1\"", " false=\"", " true=\"", "\"", "a{var:a}b", "}", "{var:a}"}, 6, 5, true},
+                {"loop-head", {"<loop", " set=\"b\"", " value=\"v\"", " value=\"loop1-value\"", " sort=\"ascend\"", " group=\"y\"", ">", "{var:v}", "{var:a} ", "</loop>", "\"", " "}, 5, 4, false},
+                {"svar", {"{svar:p", "{svar:q", ",", "{var:a}", "{raw:s}", "{math:1+1}", "{var:a", "}", " ", "{0}"}, 6, 5, false},
+            };
+            const int mk = atoi(a.get("micro", "0").c_str());
+            static std::vector<Alphabet> mal;
+            mal.clear();
+            for (auto &m : micros) {
+                Alphabet al;
+                for (auto &t : m.toks) {
+                    al.tokens.push_back(T(t.c_str()));
+                }
+                if (m.filler) {
+                    al.tokens.push_back(Text(65540, 'y'));
+                }
+                mal.push_back(al);
+            }
+            plan.rule += " || micro-grammars:";
+            for (size_t mi = 0; mi < micros.size(); mi++) {
+#ifdef VX_ASAN
+                const int mn = micros[mi].n_asan + mk;
+#else
+                const int mn = micros[mi].n + mk;
+#endif
+                if (mn < 1) {
+                    continue;
+                }
+                plan.rule += std::string(" ") + micros[mi].name + " (" + std::to_string(mal[mi].tokens.size()) + " pieces, <=" + std::to_string(mn) + ")";
+                vx::Stage s3;
+                s3.name   = std::string("micro-") + micros[mi].name;
+                s3.chunks = sigma_chunks(mal[mi], mn, 2);
+                s3.hang_s = 60;
+                s3.fn     = [mi, mn](int64_t chunk, vx::Ctx &ctx) {
+                    static Rig<char>     r8;
+                    static Rig<char32_t> r32;
+                    sigma_walk(mal[mi], mn, 2, chunk, ctx, [&](const Text &t, int, bool) {
+                        if (!ctx.next()) {
+                            return;
+                        }
+                        if (ctx.want_desc()) {
+                            ctx.describe(t.size() > 400 ? show(t.substr(0, 100)) + "...(" + std::to_string(t.size()) + " units)..." + show(t.substr(t.size() - 200)) : show(t));
+                        }
+                        ctx.acc.count("states");
+                        uint64_t h = 0;
+                        render_all<char>(t, r8, ctx, h, 2);
+                        if ((ctx.idx & 7) == 0) {
+                            render_all<char32_t>(t, r32, ctx, h, 1);
+                        }
+                        ctx.acc.outcome(h);
+                    });
+                };
+                plan.stages.push_back(s3);
+            }
+            plan.bounds += " micro=" + std::to_string(mk);
+        }
         plan.assumptions = {"ASan/UBSan (asan variants, with and without the exact-fit growth hook) or a PROT_NONE page behind the text (fast variant)",
                             "UBSan groups: bounds,null,integer-divide-by-zero,pointer-overflow,object-size,alignment"};
         return plan;
